@@ -31,6 +31,10 @@ SIZES = {  # (shards, cases per shard)
 }
 
 
+# profiles whose cases are much heavier for the machine (C23: the ChiaLisp tree hasher on trees of up to 512 leaves)
+SIZES_BY_PROFILE = {("C23", "thorough"): (16, 1000)}
+
+
 def _one_shard(args):
     hb, profile, seed, n, idx, work, heavy = args
     trace = os.path.join(work, "trace-%s-%d-%d.ndjson" % (profile, os.getpid(), idx))
@@ -48,7 +52,7 @@ def record_and_validate(profile, tier, seed, shards=None, per=None):
     hb = bins["run"]
     work = os.path.join(C.WORK, "run")
     os.makedirs(work, exist_ok=True)
-    s, p = SIZES[tier]
+    s, p = SIZES_BY_PROFILE.get((profile, tier), SIZES[tier])
     shards = shards or s
     per = per or p
     key = "run|%s|%s|%s|%d|%d|%d|%s" % (C.bin_hash(hb), profile, tier, seed, shards, per,
